@@ -156,7 +156,7 @@ META["C19"] = dict(
     text=("Theorems (Props/C19.v): on the guard tables translated from rpc_server.go and web/*.go on this run, every RPC handler reaching "
           "Query/Follow/RegisterQueryHandler and every web route serving query or cached results checks credentials first; authorize "
           "refuses any caller not presenting the configured password; authenticate serves only the static token or an unexpired session "
-          "verified in the organisation, and refuses absent, forged, expired and unverified cookies. Correspondence: the complete "
+          "verified in the organisation, and refuses absent, forged, expired and unverified cookies. The credential lattices include near misses of the right credential (suffix, proper prefix, other case, prepended). Correspondence: the complete "
           "request lattice against the real gRPC server and web handler."),
     design_ref="DESIGN.md section 4 / C19",
     note=("Modelled: the decision functions authorize/authenticate (hand model, tied by the exhaustive lattice) and the handler guard pattern "
@@ -178,7 +178,7 @@ META["C10"] = dict(
     text=("Theorems (Props/C10.v): routing is a function into [0,P) so every point goes to exactly one partition, leader inclusion and "
           "follower re-check agree, routing depends only on the partition-key values; re-merging the partitions' partial states gives "
           "the state and value of all points for every split; with output groups confined to partitions, each group is held "
-          "entirely by the partition its points are routed to and by no other. Correspondence: in-process clusters answering generated "
+          "entirely by the partition its points are routed to and by no other. Queries outside the specification model (FROM-subqueries, HAVING, CROSSTAB, ORDER/LIMIT) are compared cluster against a standalone database (stage shared with C11). Correspondence: in-process clusters answering generated "
           "queries vs the reference, and per-follower contents vs the reference over the points routed there."),
     design_ref="DESIGN.md section 4 / C10", note=_DBNOTE + " murmur3, the leader's parallel map/sort pipeline, follower start-up timers and gRPC are outside the model; only caught-up states are observed.",
     technique="Coq proof (routing function, merge homomorphism over partitions, group confinement) + in-process cluster vs specification model differential")
@@ -201,7 +201,7 @@ META["C12"] = dict(
           "deliveries and reader restarts caused by other tables) every follower of partition p holds, at every quiescent reachable state, exactly the "
           "accepted entries routed to p, each once, in order; redundant followers are identical; the partitions together hold every accepted entry "
           "once; several leaders are independent; the fair schedule reaches quiescence; the one precondition (announced EarliestOffset <= persisted "
-          "table offset) is shown necessary by a refuting trace. The offsets a follower announces are combined by OffsetsBySource.Advance (Model/Offsets.v: pointwise the later offset, never backwards; C12_offsets_*; stage offs). Correspondence: fault histories on in-process clusters vs the model run on the same operations."),
+          "table offset) is shown necessary by a refuting trace. The offsets a follower announces are combined by OffsetsBySource.Advance (Model/Offsets.v: pointwise the later offset, never backwards; C12_offsets_*; stage offs). Histories include a slow, connected follower behind a short leader-side queue (MaxFollowQueue 2-4). Correspondence: fault histories on in-process clusters vs the model run on the same operations."),
     design_ref="DESIGN.md section 4 / C12",
     note=("Modelled: one table per source in isolation (other tables appear as adversarial extra deliveries). Not modelled: gRPC transport and server.followSource itself (transcribed in the harness shim), "
           "WAL internals, leader WAL loss, MaxFollowAge, MaxFollowQueue back-pressure."),
